@@ -118,6 +118,63 @@ Emit(r) ==
                                kexp |-> cfg.k, area |-> cfg.area, lm |-> lm,
                                runs |-> << [tag |-> "base"] >>])>>)
 
+\* ---- C03 at model level: step B is affine in k_exp, flows and step A do not depend on it
+KPoints == {Zero, <<1, 4>>, <<1, 2>>, <<3, 10>>, One}
+AffineIn(f, r0, r1, rk, k) ==
+  \A c \in r0.crs :
+    /\ rk.cr[c].we.b = TAdd(r0.cr[c].we.a, TScale(TSub(r1.cr[c].we.b, r0.cr[c].we.a), k))
+    /\ rk.cr[c].we.a = r0.cr[c].we.a /\ r0.cr[c].we.b = r0.cr[c].we.a
+    /\ rk.cr[c].up = r0.cr[c].up /\ rk.cr[c].ed = r0.cr[c].ed /\ rk.cr[c].an = r0.cr[c].an
+    /\ \A sv \in r0.cr[c].up.srvs :
+          rk.cr[c].we.b_by_srv[sv] = TAdd(r0.cr[c].we.a_by_srv[sv], TScale(TSub(r1.cr[c].we.b_by_srv[sv], r0.cr[c].we.a_by_srv[sv]), k))
+    /\ (RIsZero(r0.cr[c].an.exp) => rk.cr[c].we.b = r0.cr[c].we.b)
+CheckK ==
+  Done => LET f == F
+              r0 == Evaluate(comps, f, Zero, A, lm, n)
+              r1 == Evaluate(comps, f, One, A, lm, n)
+              rk == Evaluate(comps, f, K, A, lm, n)
+          IN /\ AffineIn(f, r0, r1, rk, K)
+             /\ rk.bal.we_b = TAdd(r0.bal.we_a, TScale(TSub(r1.bal.we_b, r0.bal.we_a), K))
+
+\* ---- C12 at model level (electricity): priority, bounds, effect of load matching
+PrioOk(r) ==
+  "ELECTRICIDAD" \in r.crs =>
+    LET b == r.cr["ELECTRICIDAD"] IN \A t \in 1..n :
+      LET upv == IF "EL_INSITU" \in b.up.srcs THEN b.up.usedJ["EL_INSITU"][t] ELSE Zero
+          uch == IF "EL_COGEN" \in b.up.srcs THEN b.up.usedJ["EL_COGEN"][t] ELSE Zero
+          pv == IF "EL_INSITU" \in b.up.srcs THEN b.up.prJ["EL_INSITU"][t] ELSE 0
+      IN /\ (RPos(uch) /\ "EL_INSITU" \in b.up.srcs => pv < b.up.epus[t] /\ upv = RMul(b.up.fm[t], R(pv)))
+         /\ RLeq(RAdd(upv, uch), R(b.up.epus[t]))
+         /\ RLeq(<<1, 2>>, b.up.fm[t]) /\ RLeq(b.up.fm[t], One)
+         /\ (~lm => b.up.fm[t] = One)
+CheckPrio ==
+  Done => LET f == F
+              r == Evaluate(comps, f, K, A, lm, n)
+              roff == Evaluate(comps, f, K, A, FALSE, n)
+          IN /\ PrioOk(r)
+             /\ \A c \in r.crs : \A t \in 1..n :
+                  /\ RLeq(r.cr[c].up.used[t], roff.cr[c].up.used[t])
+                  /\ RLeq(roff.cr[c].ed.del[t], r.cr[c].ed.del[t])
+
+\* ---- C13 at model level: RER is a proper fraction and the perimeters are nested, for the
+\* regulatory sets at k_exp = 0.  The formulas of rer_onst / rer_nrb are the code's (Balance!Evaluate);
+\* the two known design-level findings are named weakenings, not silent ones:
+\*   KF_C13_PvExport: on-site electricity is exported (rer_onst keeps the exported part, rer_nrb drops it)
+\*   KF_C13_CgnExport: cogenerated electricity is exported (rer_nrb subtracts resources it never added)
+ElExports(r) == "ELECTRICIDAD" \in r.crs /\ ~RIsZero(r.cr["ELECTRICIDAD"].an.exp)
+KF_C13_PvExport(r) == ElExports(r) /\ "EL_INSITU" \in r.cr["ELECTRICIDAD"].up.srcs
+                      /\ ~RIsZero(r.cr["ELECTRICIDAD"].an.expJ["EL_INSITU"])
+KF_C13_CgnExport(r) == ElExports(r) /\ "EL_COGEN" \in r.cr["ELECTRICIDAD"].up.srcs
+                       /\ ~RIsZero(r.cr["ELECTRICIDAD"].an.expJ["EL_COGEN"])
+CheckRer ==
+  (Done /\ cfg.fac \in Locs) =>
+     LET r == Evaluate(comps, F, Zero, A, lm, n) IN
+     RPos(r.tot) =>
+       /\ RLeq(Zero, r.rer) /\ RLeq(r.rer, One)
+       /\ RLeq(Zero, r.rer_onst)
+       /\ (KF_C13_PvExport(r) \/ KF_C13_CgnExport(r) \/ RLeq(r.rer_onst, r.rer_nrb))
+       /\ (KF_C13_CgnExport(r) \/ RLeq(r.rer_nrb, r.rer))
+
 Check ==
   Done => LET f == F
               r == Evaluate(comps, f, K, A, lm, n)
